@@ -18,6 +18,93 @@ TFM = "precondition/tearfree/momentum.py"
 REALLOC = "precondition/tearfree/reallocation.py"
 
 MUTANTS = [
+    # ---- C04
+    dict(id="c04_stats_interval_off_by_one", property="C04", edits=[(DS, "        perform_step = step % statistics_compute_steps == 0\n        init_state = state.statistics", "        perform_step = step % statistics_compute_steps == 1\n        init_state = state.statistics")]),
+    dict(id="c04_precond_refresh_uses_old_stats", property="C04", edits=[(DS, "    new_stats_flat = _compute_preconditioners(new_stats_flat, params_flat,\n                                              state.count)", "    _stale = [s_._replace(statistics=o_.statistics) for s_, o_ in zip(new_stats_flat, stats_flat)]\n    _pre = _compute_preconditioners(_stale, params_flat, state.count)\n    new_stats_flat = [s_._replace(preconditioners=p_.preconditioners, training_metrics=p_.training_metrics) for s_, p_ in zip(new_stats_flat, _pre)]")],
+         note="roots are computed from the statistics of the previous step (stale by one statistics update)"),
+    dict(id="c04_sched_interval_ignored", property="C04", edits=[(DS, "    perform_step = step % preconditioning_compute_steps_t == 0\n\n    def _update_preconditioners():\n      # Passing statistics instead of preconditioners as they are similarly\n      # shaped tensors. Note statistics will be ignored as we are passing in\n      # a large error value.\n      preconditioners_init = [", "    perform_step = step % preconditioning_compute_steps == 0\n\n    def _update_preconditioners():\n      # Passing statistics instead of preconditioners as they are similarly\n      # shaped tensors. Note statistics will be ignored as we are passing in\n      # a large error value.\n      preconditioners_init = [")],
+         note="replicated path ignores the lr-scheduled interval when deciding to refresh"),
+    dict(id="c04_count_plus_two_sharded", property="C04", edits=[(DS, "    new_shampoo_state = ShampooState(\n        count=state.count + 1,\n        stats=ShardedShampooStats(new_global_stats, new_local_stats))", "    new_shampoo_state = ShampooState(\n        count=state.count + 1 + (state.count == 3),\n        stats=ShardedShampooStats(new_global_stats, new_local_stats))")]),
+    dict(id="c04_tf_precond_freq_uses_stats_freq", property="C04", edits=[(TFS, "      state.count % options.update_preconditioners_freq\n  ) == 0", "      state.count % options.update_statistics_freq\n  ) == 0")]),
+    dict(id="c04_sketchy_freq_off_by_one", property="C04", edits=[(TFK, "  should_update_stats = (state.count % options.update_freq) == 0", "  should_update_stats = ((state.count + 1) % options.update_freq) == 0")]),
+    dict(id="c04_metrics_updated_off_schedule", property="C04", edits=[(DS, "          metrics_for_state = efficient_cond(perform_step,\n                                             lambda: [metrics_for_state],\n                                             [state.training_metrics])[0]\n          # pylint:enable=cell-var-from-loop\n        else:\n          metrics_for_state = optax.MaskedNode()\n        metrics_for_states.append(metrics_for_state)\n\n        idx += num_statistics\n    new_states = []", "          # pylint:enable=cell-var-from-loop\n        else:\n          metrics_for_state = optax.MaskedNode()\n        metrics_for_states.append(metrics_for_state)\n\n        idx += num_statistics\n    new_states = []")],
+         note="diagnostics overwritten with placeholders on non-refresh steps (replicated path)"),
+    # ---- C05
+    dict(id="c05_skip_uses_raw_grad", property="C05", edits=[(DS, "      precond_grad = grafting_update\n\n    grafting_update_norm", "      precond_grad = grad\n\n    grafting_update_norm")],
+         note="skipped parameters use the raw gradient direction (differs from the graft step for AdaGrad/RMSProp/sign grafts)"),
+    dict(id="c05_compressed_complement_uses_g", property="C05", edits=[(DS, "        complement = g - lowrank_component", "        complement = g")],
+         note="packed application forgets to project out the low-rank part"),
+    dict(id="c05_has_zeros_ignored", property="C05", edits=[(DS, "        g = jnp.where(skip, old_g, new_g)", "        g = new_g")]),
+    dict(id="c05_tf_mask_rank1_ignored", property="C05", edits=[(TFG, "    if options.skip_preconditioning_rank1 and x.ndim <= 1:", "    if options.skip_preconditioning_rank1 and x.ndim < 1:")]),
+    dict(id="c05_tf_graft_norm_squared", property="C05", edits=[(TFG, "          base_norm > 0.0, jnp.linalg.norm(graft_upd) / base_norm, 0.0", "          base_norm > 0.0, jnp.linalg.norm(graft_upd) / jnp.square(base_norm), 0.0")]),
+    dict(id="c05_tf_start_off_by_one", property="C05", edits=[(TFG, "          state.count >= start_preconditioning_step,", "          state.count > start_preconditioning_step,")]),
+    # ---- C06
+    dict(id="c06_nsplit_divisible", property="C06", edits=[(DS, "        nsplit = (d - 1) // block_size", "        nsplit = d // block_size")],
+         note="appends an empty block when the dim is a multiple of the block size"),
+    dict(id="c06_merge_partitions_order", property="C06", edits=[(DS, "    for (i, indices) in reversed(self._splits):", "    for (i, indices) in self._splits:")],
+         note="partitions merged in the wrong axis order (needs >= 2 split axes)"),
+    dict(id="c06_output_type_slots", property="C06", edits=[(DS, "      preconditioners_for_grad = [None] * (rank - 1) + preconditioners_for_grad", "      preconditioners_for_grad = preconditioners_for_grad + [None] * (rank - 1)")]),
+    dict(id="c06_input_shapes_slice", property="C06", edits=[(DS, "        preconditioner_shapes.extend(map(self._preconditioner_shape, t[:-1]))", "        preconditioner_shapes.extend(map(self._preconditioner_shape, t[1:]))")]),
+    dict(id="c06_reshaper_pad_extra_block", property="C06", edits=[(TFR, "        s = (s + options.block_size - 1) // options.block_size", "        s = s // options.block_size + 1")]),
+    dict(id="c06_reshaper_unpad_trailing", property="C06", edits=[(TFR, "      merged = update[tuple(slice(0, m) for m in shapes.merged_shape)]", "      merged = update[tuple(slice(u - m, u) for m, u in zip(shapes.merged_shape, update.shape))]")]),
+    dict(id="c06_blockify_perm", property="C06", edits=[(TFS, "  perm.insert(l_blocks_ix + 1, r_blocks_ix)", "  perm.insert(l_blocks_ix, r_blocks_ix)")]),
+    dict(id="c06_control_merge_strict", property="C06", expect="silent", edits=[(DS, "    if product * d <= max_dim:", "    if product * d < max_dim:")],
+         note="control for C06: merging one short of the limit is still lossless and within the limit (C02 catches it)"),
+    # ---- C07
+    dict(id="c07_avg_grad_masked_again", property="C07", edits=[(DS, "    new_avg_grad = state.avg_grad\n", "    new_avg_grad = optax.MaskedNode()\n")]),
+    dict(id="c07_count_float_declared", property="C07", edits=[(DS, "        count=[[], jnp.int32],", "        count=[[], jnp.float32],")]),
+    dict(id="c07_sm3_momentum_dtype_changes", property="C07", edits=[(SM3, "        ParameterStats(diagonal_stats, _quantize_momentum(momentum)),", "        ParameterStats(diagonal_stats, QuantizedValue.from_float_value(momentum, jnp.bfloat16)),")],
+         note="sm3 state changes dtype/static metadata after the first update"),
+    dict(id="c07_fd_needs_reuse_unchecked", property="C07", edits=[(DS, "  if frequent_directions and not reuse_preconditioner:", "  if False and frequent_directions and not reuse_preconditioner:")]),
+    dict(id="c07_update_dtype_promoted", property="C07", edits=[(DS, "    transformed_update = -1.0 * momentum_multiplier * nesterov_momentum_update", "    transformed_update = (-1.0 * momentum_multiplier * nesterov_momentum_update).astype(jnp.bfloat16)")]),
+    # ---- C08
+    dict(id="c08_tf_global_max_again", property="C08", edits=[(TFS, "  mask = w <= eps * jnp.max(w, axis=-1, keepdims=True)", "  mask = w <= eps * jnp.max(w)")]),
+    dict(id="c08_relative_eps_uses_batch_max", property="C08", edits=[(DS, "  def _matrix_inverse_pth_root_vmap(xs, ps, padding_starts, prev):\n    return jax.vmap(mi_pth_root)(\n        xs, ps, padding_start=padding_starts, prev=prev)", "  def _matrix_inverse_pth_root_vmap(xs, ps, padding_starts, prev):\n    xs = xs + 1e-3 * jnp.max(jnp.abs(xs)) * jnp.eye(xs.shape[-1], dtype=xs.dtype) * (jnp.arange(xs.shape[-1]) < padding_starts[:, None])[..., None]\n    return jax.vmap(mi_pth_root)(\n        xs, ps, padding_start=padding_starts, prev=prev)")],
+         note="a ridge proportional to the largest entry over ALL statistics of the batch couples blocks and parameters"),
+    dict(id="c08_graft_norm_per_block", property="C08", expect="silent", edits=[(DS, "    precond_grad_norm = jnp.linalg.norm(precond_grad)", "    precond_grad_norm = jnp.linalg.norm(precond_grad.reshape(-1))")],
+         note="control: same norm"),
+    # ---- C09
+    dict(id="c09_sketchy_tail_sqrt_again", property="C09", edits=[(TFK, "    tail = axis_state.tail * options.second_moment_decay + cutoff**2", "    tail = axis_state.tail * decay + cutoff**2")]),
+    dict(id="c09_ds_tail_not_decayed", property="C09", edits=[(DS, "  tail = tail * decay\n  new_tail = tail + rho_t", "  new_tail = tail + rho_t")]),
+    dict(id="c09_ds_deflate_by_next", property="C09", edits=[(DS, "  cutoff = s[rank]\n  rho_t = cutoff**2", "  cutoff = s[rank + 1]\n  rho_t = cutoff**2")],
+         note="deflates by the (k+2)-th singular value: sketch no longer below the covariance"),
+    dict(id="c09_oco_no_deflation", property="C09", edits=[(OCO, "s = (s - rho) * (s + rho)", "s = s * s")]),
+    dict(id="c09_sketchy_inverse_without_tail", property="C09", edits=[(TFK, "        jnp.square(jnp.maximum(top_eigs, 0.0))\n        + axis_state.tail * options.second_moment_decay\n    )", "        jnp.square(jnp.maximum(top_eigs, 0.0))\n    )")],
+         note="stored inverse roots forget the escaped mass"),
+    # ---- C10
+    dict(id="c10_pack_tail_row", property="C10", edits=[(DS, "  precond = precond.at[1, -1].set(new_tail)", "  precond = precond.at[2, -1].set(new_tail)")]),
+    dict(id="c10_const_mean_over_padded", property="C10", edits=[(DS, "  real_dim = padding_start if padding_start is not None else d", "  real_dim = d")],
+         note="mean of the truncated roots taken over padded dimensions (needs padding)"),
+    dict(id="c10_negative_rank_no_roll", property="C10", edits=[(DS, "    inv_e = jnp.roll(inv_e, -(d - padding_start))\n    u = jnp.roll(u, -(d - padding_start), axis=1)", "    pass")],
+         note="negative rank keeps the padding eigenvectors instead of the smallest real ones (needs padding)"),
+    dict(id="c10_apply_complement", property="C10", edits=[(DS, "        complement = g - lowrank_component", "        complement = g - 0.5 * lowrank_component")]),
+    # ---- C13
+    dict(id="c13_replica_slice_shift", property="C13", edits=[(DS, "        current_replica = lax.axis_index(batch_axis_name)\n        preconditioners, metrics = _matrix_inverse_pth_root_vmap(\n            all_statistics[current_replica],", "        current_replica = lax.axis_index(batch_axis_name)\n        preconditioners, metrics = _matrix_inverse_pth_root_vmap(\n            all_statistics[(current_replica + 1) % num_devices],")],
+         note="each replica inverts its neighbour's slice but gathers in replica order"),
+    dict(id="c13_pad_exponent_zero", property="C13", edits=[(DS, "    exponents.extend([1 for _ in range(to_pad)])\n    paddings = [len(stat) for stat in statistics] + [0] * to_pad\n\n    if not packed_statistics:", "    exponents.extend([1 for _ in range(to_pad)])\n    paddings = [len(stat) for stat in statistics] + [0] * to_pad\n    if to_pad:\n      packed_statistics[-to_pad - 1] = packed_statistics[-to_pad - 1] * 1.0001\n\n    if not packed_statistics:")],
+         note="when padding to a multiple of the device count is needed, the last real statistic is perturbed"),
+    dict(id="c13_sharded_to_pad", property="C13", edits=[(DS, "    to_pad = -len(new_padded_statistics) % num_devices_for_pjit\n    if not new_padded_statistics:", "    to_pad = -len(new_padded_statistics) % num_devices_for_pjit\n    if to_pad:\n      new_padded_statistics[0] = new_padded_statistics[0] * 1.0001\n    if not new_padded_statistics:")]),
+    # ---- C14
+    dict(id="c14_hidden_python_counter", property="C14", edits=[(SM3, "  def update_fn(updates, state, params):\n    stats = state.stats", "  _calls = []\n\n  def update_fn(updates, state, params):\n    _calls.append(1)\n    if len(_calls) == 1:\n      updates = jax.tree.map(lambda g: g * 1.0000001, updates)\n    stats = state.stats")],
+         note="first traced call of a fresh optimizer instance behaves differently: state outside the pytree"),
+    dict(id="c14_schedule_uses_python_step", property="C14", edits=[(DS, "    lr = learning_rate\n    if callable(learning_rate):\n      lr = learning_rate(step)\n\n    preconditioner_multiplier", "    lr = learning_rate\n    if callable(learning_rate):\n      _LR_CALLS.append(1)\n      lr = learning_rate(step) * (1.0 + 1e-6 * (len(_LR_CALLS) <= 1))\n\n    preconditioner_multiplier"), (DS, "# Small epsilon to avoid divide by zero.\n_EPSILON = 1e-25", "# Small epsilon to avoid divide by zero.\n_EPSILON = 1e-25\n_LR_CALLS = []")],
+         note="module-level hidden state alters the first compiled step of a process"),
+    # ---- C15
+    dict(id="c15_wd_order_swapped", property="C15", edits=[(TFM, "  if options.weight_decay_after_momentum:\n    transforms = momentum_transforms + wd_transforms\n  else:\n    transforms = wd_transforms + momentum_transforms", "  if options.weight_decay_after_momentum:\n    transforms = wd_transforms + momentum_transforms\n  else:\n    transforms = momentum_transforms + wd_transforms")]),
+    dict(id="c15_ema_scale_uses_decay", property="C15", edits=[(TFM, "      momentum_transforms.append(optax.scale(1 - options.momentum_decay))", "      momentum_transforms.append(optax.scale(options.momentum_decay))")]),
+    dict(id="c15_root_exponent_rank", property="C15", edits=[(TFS, "  p = len(meta.param_shape) * 2", "  p = len(meta.param_shape) * 2 + (len(meta.param_shape) == 3)")],
+         note="wrong root exponent for rank-3 (merged) tensors only"),
+    dict(id="c15_stats_ema_weights", property="C15", edits=[(TFS, "  return old * decay + new * (1 - decay)", "  return old * decay + new")]),
+    dict(id="c15_lr_inside_graft", property="C15", edits=[(TFG, "      return jnp.where(\n          state.count >= start_preconditioning_step,\n          base * multiplier,\n          graft_upd,\n      )", "      return jnp.where(\n          state.count >= start_preconditioning_step,\n          base * multiplier,\n          graft_upd * (1.0 + 1e-3 * jnp.tanh(jnp.linalg.norm(graft_upd))),\n      )")],
+         note="warm-up update is not the graft step (nonlinear factor)"),
+    dict(id="c15_unmerge_wrong_for_padding", property="C15", edits=[(TFR, "      merged = update[tuple(slice(0, m) for m in shapes.merged_shape)]", "      merged = update[tuple(slice(u - m, u) for m, u in zip(shapes.merged_shape, update.shape))]")]),
+    # ---- C17
+    dict(id="c17_leftover_loop_again", property="C17", edits=[(REALLOC, "        if extra <= 0:\n          break\n        if realloc[key] < dim:\n          realloc[key] += 1\n          extra -= 1", "        realloc[key] = min(realloc[key] + 1, dim)\n        extra = extra - 1 if realloc[key] + 1 < dim else extra\n        if extra <= 0:\n          break")]),
+    dict(id="c17_running_total_again", property="C17", edits=[(REALLOC, "      total_score = sum(score for _, score in sorted_scores[i:])\n", "      total_score = sum(score for _, score in sorted_scores) - sum(score for _, score in sorted_scores[:i])\n")],
+         note="remaining total via subtraction: catastrophic cancellation with a dominant score"),
+    dict(id="c17_rd_no_plus_one", property="C17", edits=[(REALLOC, "    return int(x // 1) + 1", "    return int(x // 1)")]),
+    dict(id="c17_reserve_not_subtracted", property="C17", edits=[(REALLOC, "    group_resource -= group_size\n", "")]),
+
     # ---- C01
     dict(id="c01_returns_previous_iterate", property="C01", edits=[(DS, "resultant_mat_h = is_converged * mat_h + (1 - is_converged) * old_mat_h", "resultant_mat_h = is_converged * old_mat_h + (1 - is_converged) * mat_h")],
          note="returns the iterate before the last one together with the last iterate's error"),
@@ -33,12 +120,12 @@ MUTANTS = [
          note="all-padding inputs return a non-zero matrix"),
     dict(id="c01_scalar_no_ridge", property="C01", edits=[(DS, "resultant_mat_h = damped_matrix**alpha", "resultant_mat_h = matrix**alpha")],
          note="1x1 branch forgets the ridge"),
-    dict(id="c01_matrix_padding_unmasked", property="C01", edits=[(DS, "    matrix *= ix[jnp.newaxis, :]\n    matrix *= ix[:, jnp.newaxis]\n    identity *= ix\n\n  original_matrix", "    identity *= ix\n\n  original_matrix")],
-         note="Newton path no longer masks the identity padding block of the input"),
+    dict(id="c01_control_matrix_padding_unmasked", property="C01", expect="silent", edits=[(DS, "    matrix *= ix[jnp.newaxis, :]\n    matrix *= ix[:, jnp.newaxis]\n    identity *= ix\n\n  original_matrix", "    identity *= ix\n\n  original_matrix")],
+         note="control (found equivalent): with the identity still masked, the coupled iteration keeps the padding rows/columns of the root exactly zero and the real block is unaffected (block-diagonal input)"),
     dict(id="c01_control_eigh_val_formula", property="C01", expect="silent", edits=[(DS, "  root = u * jnp.sqrt(inv_e)\n  val = mm(root, root.T)\n", "")],
          note="control: keep val = U diag(inv_e) U' instead of the symmetrised product (same matrix)"),
     # ---- C02
-    dict(id="c02_stats_w2_always_one", property="C02", edits=[(DS, "    w1 = beta2\n    w2 = jnp.where(beta2 == 1.0, beta2, 1.0 - beta2)\n    new_avg_grad", "    w1 = beta2\n    w2 = 1.0\n    new_avg_grad")]),
+    dict(id="c02_stats_w2_always_one", property="C02", edits=[(DS, "    w1 = beta2\n    w2 = jnp.where(beta2 == 1.0, beta2, 1.0 - beta2)\n    # Parameters that skip", "    w1 = beta2\n    w2 = 1.0\n    # Parameters that skip")]),
     dict(id="c02_exponent_halved", property="C02", edits=[(DS, "    return 2 * num_preconditioners", "    return max(num_preconditioners, 1)")]),
     dict(id="c02_nesterov_drops_w", property="C02", edits=[(DS, "nesterov_momentum_update = w * wd_update + beta1 * momentum_update", "nesterov_momentum_update = wd_update + beta1 * momentum_update")],
          note="only differs with moving_average_for_momentum and nesterov"),
